@@ -32,6 +32,7 @@ LOCKCLS = lambda c: c.endswith('scoped_lock')   # noqa: E731
 
 
 def run(facts, rep):
+    d1_batch_flags_only_raised(facts, rep)
     d1_handlers(facts, rep)
     d2_serial(facts, rep)
     d3_concurrency(facts, rep)
@@ -238,7 +239,8 @@ def d4_rejected(facts, rep):
     from rules.C15 import join_forwarding
     join_forwarding(facts, rep, 'D4')
     d4_offer_on_registration(facts, rep)
-    rep.floor('D4', 18, 'rejection handling')
+    d4_edge_removal_notifies_once(facts, rep)
+    rep.floor('D4', 22, 'rejection handling')
 
 
 def d5_wait(facts, rep):
@@ -607,3 +609,98 @@ def d4_offer_on_registration(facts, rep):
                'no push attempt is reachable after the successor was entered: a message this node kept (because it was rejected, or arrived '
                'before the edge existed) is never offered to the receiver that now (again) wants it - it stays in the graph for ever',
                ln=node['ln'], key_extra='offer|%s|%s' % (short, p))
+
+
+def d1_batch_flags_only_raised(facts, rep):
+    """An aggregator handler processes a whole batch of operations in one loop and decides AFTER the loop, from local flags, what
+    else has to happen (here: whether a forwarding task must be created so that buffered items are offered to the
+    successors).  Such a flag is a request raised by some operation of the batch; a later operation of the same batch must not
+    withdraw it.  Rule: a local variable that is false-initialised before the operation loop and tested after it is only
+    raised inside the loop: every assignment to it in the loop stores the constant true, or ORs the old value in."""
+    from rules.common import handler_iterations
+    n = 0
+    for fn in facts.fns.values():
+        if not (fn.cls or '').startswith(D2):
+            continue
+        its = handler_iterations(fn)
+        if not its:
+            continue
+        adv = its[0][0]
+        reached, ex, par = fn.walk(adv)
+        if adv not in reached:
+            continue
+        loop = set(q for q in reached if fn.can_reach(q, adv))
+        defs = Defs(fn)
+        # candidate flags: locals of bool type initialised to a constant 0
+        flags = {}
+        for pos, sx, nd in fn.stmt_elems(('decl',)):
+            for v in nd['vars']:
+                if v.get('ty') == 'bool' and 'init' in v and fn.cv(v['init']) == 0 and pos not in loop:
+                    flags[v['v']] = v['n']
+        for vid, name in sorted(flags.items()):
+            # tested after the loop?
+            tested = False
+            for b, blk in fn.blocks.items():
+                t = blk.get('term')
+                if t and 'c' in t and (b, len(blk['e'])) not in loop:
+                    if any(fn.nodes[x].get('k') == 'var' and fn.nodes[x].get('v') == vid for x in fn.subtree(t['c'])) and \
+                            not any(q[0] == b for q in loop):
+                        tested = True
+            if not tested:
+                continue
+            bad = []
+            for (v2, dn), val in defs.value_of.items():
+                if v2 != vid:
+                    continue
+                dpos = fn.pos_of(dn)
+                if dpos not in loop:
+                    continue
+                if val is None:
+                    dnode = fn.nodes[dn]
+                    if dnode.get('k') == 'binop' and dnode.get('op') == '|=':
+                        continue
+                    bad.append(dnode.get('ln'))
+                    continue
+                c = fn.cv(val)
+                if c is not None and c != 0:
+                    continue
+                vn = fn.n(fn.strip(val))
+                if vn.get('k') == 'binop' and vn.get('op') in ('||', '|') and \
+                        any(fn.nodes[x].get('k') == 'var' and fn.nodes[x].get('v') == vid for x in fn.subtree(fn.strip(val))):
+                    continue
+                bad.append(fn.nodes[dn].get('ln'))
+            n += 1
+            rep.ob('D1', 'K3', fn, 'the batch flag `%s` of %s is only raised while the batch is handled' % (name, fn.p.split('::')[-2] + '::' + fn.p.split('::')[-1]),
+                   not bad, 'assignment(s) at line %s can reset the flag: a request raised by an earlier operation of the same batch (a released '
+                   'reservation, a new successor) is withdrawn by a later one (a rejected put) - no forwarding task is created and the item '
+                   'that should be offered again stays in the buffer' % sorted(set(bad)), key_extra='batchflag|%s|%s' % (fn.p, name))
+    if n < 1:
+        raise AnalysisBroken('no batch flag found in the flow-graph aggregator handlers (buffer_node try_forwarding)')
+
+
+def d4_edge_removal_notifies_once(facts, rep):
+    """A continue_node counts its predecessors: make_edge raises the count once (the successor cache of a continue_msg sender
+    registers the sender with a continue receiver), remove_edge must lower it once.  The removal notification has two possible
+    origins - the sender's remove_successor() calling remove_predecessor(r, *this) itself, and successor_cache<continue_msg>::
+    remove_successor doing it for every receiver.  Rule (pairing, per instantiation with continue_msg): a sender whose successor
+    cache notifies the receiver does not notify it a second time.  A double notification makes the node fire after fewer
+    signals than it has predecessors."""
+    cache_notifies = False
+    for fn in facts.by_p.get(D2 + 'successor_cache::remove_successor', []):
+        if 'successor_cache<tbb::detail::d2::continue_msg' in fn.q and calls_named(fn, ('remove_predecessor',)):
+            cache_notifies = True
+    n = 0
+    for fn in facts.fns.values():
+        if not fn.p.endswith('::remove_successor') or 'continue_msg>::remove_successor' not in fn.q or '_cache' in fn.p:
+            continue
+        if not (fn.cls or '').startswith(D2):
+            continue
+        n += 1
+        explicit = [c for c in calls_named(fn, ('remove_predecessor',)) if (c[3].get('p') or '') == D2 + 'remove_predecessor']
+        rep.ob('D4', 'K3', fn, '%s<continue_msg>::remove_successor tells the receiver once that the edge is gone' % fn.p.split('::')[-2],
+               not (explicit and cache_notifies), 'the function calls remove_predecessor(r, *this) (line %s) and its successor cache '
+               '(successor_cache<continue_msg>::remove_successor) calls r.remove_predecessor() again: a continue_node loses two '
+               'predecessors for one removed edge and fires one signal early' % [c[2]['ln'] for c in explicit],
+               key_extra='rm-once|%s' % fn.p)
+    if n < 3:
+        raise AnalysisBroken('senders of continue_msg are not instantiated by the driver (%d remove_successor instances)' % n)
